@@ -165,6 +165,7 @@ func inAssert(fr *frame, args []value) value {
 		r, m := px.check(smt.BNot(c), true)
 		switch r {
 		case smt.Unsat:
+			px.crossCheck(smt.BNot(c), label)
 			px.addPC(c)
 		case smt.Sat:
 			v := &Violation{Harness: px.harness, Label: label, Msg: "assertion can be false", Kind: "assert", Model: m, Inputs: px.inputs, Where: px.where(fr)}
